@@ -82,6 +82,24 @@ def gen_cases(tier, rng):
                     else:
                         cases.append('H:f=0 %s %s exp:reject mut:%s' % (defs, A.argv_tok(w),
                                      'required-missing' if kind_ == 'req' else 'excluded-after'))
+    # the cardinality counts again behind a file named on the command line (the read mode "file" ends with the file)
+    afx = 'H:f=0 arg:i:i0: arg:n:s0: arg:v:vi0:card=max~3 arg:arg-file:af0: xfile:%s:' % A.hx('f1.pa')
+    for content, words, exp in (
+            ('-n x\n', ['--arg-file', 'f1.pa', '-i', '1', '-i', '2'], 'reject'),
+            ('-n x\n', ['-i', '1', '--arg-file', 'f1.pa', '-i', '2'], 'reject'),
+            ('-i 7\n', ['--arg-file', 'f1.pa', '-i', '1', '-i', '2'], 'reject'),
+            ('-i 7\n', ['--arg-file', 'f1.pa', '-i', '1'], 'i0=1;s0=s-;vi0=[]'),
+            ('-v 9\n', ['--arg-file=f1.pa', '-v', '1', '-v', '2', '-v', '3', '-v', '4'], 'reject'),
+            ('-v 9\n', ['--arg-file=f1.pa', '-v', '1', '-v', '2', '-v', '3'], 'i0=0;s0=s-;vi0=[9,1,2,3]'),
+            ('-n x\n', ['--arg-file', 'f1.pa', '--arg-file', 'f1.pa'], 'reject'),
+            ('-n x\n', ['--arg-file', 'f1.pa', '-n', 'y', '-n', 'z'], 'reject')):
+        cases.append('%s%s %s exp:%s mut:%s' % (afx, A.hx(content), A.argv_tok(words), exp,
+                                                 'duplicate' if exp == 'reject' else 'none'))
+    # nothing on the command line: the end-of-line checks still run
+    cases.append('H:f=0 arg:m:i0:man arg:x:b0:init=0 argv:- exp:reject mut:drop-mandatory')
+    cases.append('H:f=0 arg:l:b0:init=0 arg:m:b1:init=0 con:one_of:l;m argv:- exp:reject mut:break-handler-constraint')
+    cases.append('H:f=0 arg:l:b0:init=0 arg:m:b1:init=0 con:all_of:l;m argv:- exp:reject mut:break-handler-constraint')
+    cases.append('H:f=0 arg:l:b0:init=0 arg:m:b1:init=0 con:any_of:l;m argv:- exp:b0=0;b1=0 mut:none')
     n += len(cases)
     guard = 0
     while len(cases) < n and guard < n * 30:
